@@ -12,7 +12,7 @@ RULE = ("exhaustive: every header field code 0 and 10..255 x 8 variant values (u
         "non-trivial = every case (all inputs are complete, otherwise valid messages).")
 TRUSTED = ["the reference reader spec_parse/spec_stream of C11/Spec.v defines 'valid except for unknown parts'",
            "socket contract: bytes arrive in order, 0 at end of stream (framing under arbitrary splits is C14)",
-           "a reader-task panic is observed as HANG through a 4 s timeout (normal cases take milliseconds)"]
+           "a reader-task panic is observed as HANG through a 3 s timeout, confirmed by a second run with 9 s (normal cases take milliseconds)"]
 ASSUMPTIONS = ["unix socketpair + Builder::authenticated_socket(..).p2p() stands for any transport"]
 
 BASE = [(1, b"o", b"/a/b"), (2, b"s", b"org.a.B"), (3, b"s", b"Ping")]
